@@ -14,6 +14,7 @@ import (
 	"fmt"
 	"math/big"
 	"net"
+	"sort"
 	"strconv"
 	"strings"
 	"sync"
@@ -392,6 +393,39 @@ func checkKeyIO(c keyioCase) (err error) {
 	if e := samePrivate(priv, priv2); e != nil {
 		return pbt.Errf("NewPrivateKey returned a different key: %v", e)
 	}
+	// the same key file as BIND writes and people edit it: v1.3 timing fields, blank lines, a comment
+	// line, no newline at the end, read through NewPrivateKey and through ReadPrivateKey
+	lines := strings.Split(strings.TrimSuffix(txt, "\n"), "\n")
+	variants := map[string]string{
+		"without the final newline":               strings.Join(lines, "\n"),
+		"with BIND 9 timing fields":               txt + "Created: 20240101000000\nPublish: 20240101000000\nActivate: 20240101000000\n",
+		"with blank lines":                        strings.Join(lines, "\n\n") + "\n\n",
+		"with comment lines":                      "; made by the harness\n" + lines[0] + "\n; another comment\n" + strings.Join(lines[1:], "\n") + "\n",
+		"with timing fields and no final newline": txt + "Created: 20240101000000",
+	}
+	vnames := make([]string, 0, len(variants))
+	for name := range variants {
+		vnames = append(vnames, name)
+	}
+	sort.Strings(vnames)
+	for _, name := range vnames {
+		v := variants[name]
+		p3, e := k.NewPrivateKey(v)
+		if e == nil {
+			e = samePrivate(priv, p3)
+		}
+		if e != nil {
+			return pbt.Errf("NewPrivateKey of the key file %s: %v\n--- the text:\n%s\n---", name, e, v)
+		}
+		p4, e := k.ReadPrivateKey(strings.NewReader(v), "harness")
+		if e == nil {
+			e = samePrivate(priv, p4)
+		}
+		if e != nil {
+			return pbt.Errf("ReadPrivateKey of the key file %s: %v", name, e)
+		}
+		pbt.Class("key-file-variant")
+	}
 	if c.RefMade {
 		// export of the imported key
 		if e := checkBINDText(c.Alg, k.PrivateKeyString(priv2), priv); e != nil {
@@ -511,4 +545,12 @@ func genKeyIO(t *rapid.T) keyioCase {
 
 func init() {
 	pbt.Register(pbt.Sub[keyioCase]{Name: "key-export-import", Weight: 0.5, Gen: genKeyIO, Check: checkKeyIO})
+	// the largest size DNSKEY.Generate supports, once per process for an algorithm of each of its two
+	// size rules (RSASHA256: 512..4096, RSASHA512: 1024..4096); generation takes around a second each
+	pbt.RegisterEnum(pbt.Enum[keyioCase]{Name: "generate-maximum-size", Exhaustive: false, Check: checkKeyIO,
+		Each: func(emit func(keyioCase)) {
+			for _, alg := range []uint8{8, 10} {
+				emit(keyioCase{Alg: alg, Bits: 4096, A: [4]byte{192, 0, 2, alg}, TTL: 300, Incep: 1700000000, Expir: 1700086400})
+			}
+		}})
 }
